@@ -76,7 +76,7 @@ pub fn run(tier: Tier, seed: u64, only: Option<usize>) -> i32 {
     ];
     rep.required_clauses = vec!["wire_packet_decodes", "icmp_probe_fields", "udp_probe_fields", "tcp_probe_fields"];
     let cells = all_cells(false).len();
-    let n = cells * tier.pick(5, 140);
+    let n = cells * tier.pick(30, 500);
     match only {
         Some(i) => {
             let o = run_scenario(seed, i, tier);
